@@ -7,7 +7,7 @@
 EXTENDS Naturals, Sequences, TLC, Json
 
 Families == {"add", "sub", "mul", "div", "mod", "pow", "neg", "lt", "ge", "eq", "ne", "and", "or", "xor", "not",
-             "transpose", "matmul", "sumrow", "sumcol",
+             "transpose", "matmul", "solve", "dot", "sumrow", "sumcol",
              "horz2", "horz3", "horz4", "horz5", "vert2", "vert3", "vert4", "vert5", "block22",
              "rng", "rngi", "rngs", "rngsi",
              "idx_s", "idx_v", "idx_r", "idx_a", "idx_m", "idx_ss", "idx_sa", "idx_as", "idx_vv", "idx_va", "idx_av", "idx_mm", "idx_ma",
